@@ -99,9 +99,11 @@ def named(run, repo, cname, qual, ci):
         m = 'get_' + X
         if X == 'q':
             continue                      # products of powers: decided on the generic reaction (step 1)
-        for st, which in (('reactants', 'reactants'), ('products', 'products'), ('TS', 'transition_state')):
+        # (every change enters two states; the state getters themselves for one quantity)
+        for st, which in ((('reactants', 'reactants'), ('products', 'products'), ('TS', 'transition_state'))
+                          if X == 'HoRT' else ()):
             got = I.call_method(rxn, 'get_%s_state' % X, [], dict(kw, state=st))
-            kwe = dict(kw, include_ZPE=False) if X == 'EoRT' else kw
+            kwe = kw
             want = routed_state(I, fx, which, m, kwe, {})
             run.check(same(got, want), 'REF.state', '%s.get_%s_state' % (cname, X), 'surface species state:' + st,
                       'with surface species and the bulk species of their catalyst site among the %s the state '
@@ -130,7 +132,8 @@ def named(run, repo, cname, qual, ci):
         cases.append(('a block for %s alone' % nm, {nm: {'P': D.sym('P2'), 'T': D.sym('T2')}}))
     for label, blocks in cases:
         order = ['T', 'P'] + [b + '_kwargs' for b in blocks]
-        for st, which in (('reactants', 'reactants'), ('products', 'products'), ('TS', 'transition_state')):
+        for st, which in ((('reactants', 'reactants'), ('products', 'products')) if blocks is every else ()) \
+                + (('TS', 'transition_state'),):
             got = I.call_method(rxn, 'get_HoRT_state', [], dict(as_kwargs(order, kw, blocks), state=st))
             want = routed_state(I, fx, which, 'get_HoRT', kw, blocks)
             run.check(same(got, want), 'DATAFLOW.species-kwargs', cname + '.get_state_quantity',
@@ -143,11 +146,14 @@ def named(run, repo, cname, qual, ci):
         run.check(same(got, want), 'DATAFLOW.species-kwargs', cname + '.get_delta_GoRT', 'related names: ' + label,
                   'conditions addressed to one species by its name must reach that species and no other: %s'
                   % show(got, 300), owner.module, fn)
-        got = I.call_method(rxn, 'get_Keq', [], as_kwargs(order, kw, blocks))
-        run.check(same(got, D.exp(-want)), 'DATAFLOW.species-kwargs', cname + '.get_Keq', 'related names: ' + label,
-                  'conditions addressed to one species by its name must reach that species and no other: %s'
-                  % show(got, 300), owner.module, fn)
-        n += 2
+        n += 1
+        if blocks is every:
+            got = I.call_method(rxn, 'get_Keq', [], as_kwargs(order, kw, blocks))
+            run.check(same(got, D.exp(-want)), 'DATAFLOW.species-kwargs', cname + '.get_Keq',
+                      'related names: ' + label,
+                      'conditions addressed to one species by its name must reach that species and no other: %s'
+                      % show(got, 300), owner.module, fn)
+            n += 1
     # 8. the order in which the caller writes his keyword arguments is not part of the contract: a block wins over
     #    the shared condition of the same name wherever it stands
     blocks = {'H2O': {'T': D.sym('T2'), 'P': D.sym('P2')}}
@@ -163,10 +169,12 @@ def named(run, repo, cname, qual, ci):
         got = I.call_method(rxn, 'get_delta_GoRT', [], as_kwargs(order, kw, blocks))
         run.check(same(got, wantG), 'DATAFLOW.species-kwargs', cname + '.get_delta_GoRT', key,
                   why % show(got, 300), owner.module, fn)
-        got = I.call_method(rxn, 'get_Keq', [], as_kwargs(order, kw, blocks))
-        run.check(same(got, D.exp(-wantG)), 'DATAFLOW.species-kwargs', cname + '.get_Keq', key,
-                  why % show(got, 300), owner.module, fn)
-        n += 3
+        n += 2
+        if order[0] != 'T':
+            got = I.call_method(rxn, 'get_Keq', [], as_kwargs(order, kw, blocks))
+            run.check(same(got, D.exp(-wantG)), 'DATAFLOW.species-kwargs', cname + '.get_Keq', key,
+                      why % show(got, 300), owner.module, fn)
+            n += 1
     # the getters with an explicit T: the pressure block before and after the shared pressure
     blocks = {'H2O': {'P': D.sym('P2')}}
     wantS = routed_delta(I, fx, 'get_SoR', kw, blocks) * D.sym('kb') * D.sym('Na')
